@@ -262,6 +262,34 @@ theorem precise_justified (R C : List Pos)
 
 end precise
 
+/-- **precise_spec.**  The three facts for the function the driver runs (`greyDilation`, exact
+tie-break key): subset, pairwise separated, every discarded candidate justified. -/
+theorem precise_spec (img : Image) (sep : List Rat) (pct : Rat) (margin? : Option (List Nat))
+    (R C : List Pos)
+    (hR : greyDilation img sep pct margin? true = some R)
+    (hC : greyDilation img sep pct margin? false = some C) :
+    R.Sublist C
+      ∧ (∀ p ∈ R, ∀ q ∈ R, p ≠ q → 1 ≤ dist2 sep (p.map Int.ofNat) (q.map Int.ofNat))
+      ∧ (∀ d ∈ C, d ∉ R → ∃ c ∈ C, c ≠ d ∧ dist2 sep (d.map Int.ofNat) (c.map Int.ofNat) < 1
+            ∧ img.pix d ≤ img.pix c) :=
+  ⟨precise_subset _ img sep pct margin? R C hR hC,
+   fun p hp q hq hne => precise_separated _ img sep pct margin? R hR p q hp hq hne,
+   fun d hd hnd => precise_justified _ img sep pct margin? R C hR hC d hd hnd⟩
+
+/-- the model returns a result exactly on the well-formed inputs (so the hypotheses
+`greyDilation … = some R` above are satisfied by every input the harness drives) -/
+theorem greyDilation_total (key : Pos → Rat) (img : Image) (sep : List Rat) (pct : Rat)
+    (margin? : Option (List Nat)) (precise : Bool) :
+    (∃ R, greyDilationK key img sep pct margin? precise = some R) ↔
+      wellFormed img sep (margin?.getD (defaultMargin sep)) = true := by
+  constructor
+  · rintro ⟨R, h⟩
+    exact (greyDilationK_some h).1
+  · intro hw
+    unfold greyDilationK
+    simp only [hw, Bool.not_true, Bool.false_eq_true, if_false]
+    cases percentileThr img pct <;> cases precise <;> simp
+
 /-! ## non-vacuity: the hypotheses are satisfiable on concrete, non-trivial inputs -/
 
 /-- 3×3 image, one peak (5) in the centre, a lower peak (2) in the corner, background 1 -/
